@@ -369,9 +369,20 @@ impl Future for TaskFut {
                     let id = child.id;
                     let spawner = this.shared.borrow().spawner.clone().unwrap();
                     // SAFETY: the future owns only 'static data (Rc to harness state)
-                    match unsafe { spawner.spawn(child) } {
-                        Ok(rx) => this.shared.borrow_mut().receivers.push((id, rx)),
-                        Err(_) => this.shared.borrow_mut().errors.push("spawner dead".into()),
+                    // child script 1 goes through the other entry point (`spawn_pinned`, no receiver)
+                    if sidx == 1 {
+                        let fut: Pin<Box<dyn Future<Output = ()>>> = Box::pin(async move {
+                            child.await;
+                        });
+                        // SAFETY: as below
+                        if unsafe { spawner.spawn_pinned(fut) }.is_err() {
+                            this.shared.borrow_mut().errors.push("spawner dead".into());
+                        }
+                    } else {
+                        match unsafe { spawner.spawn(child) } {
+                            Ok(rx) => this.shared.borrow_mut().receivers.push((id, rx)),
+                            Err(_) => this.shared.borrow_mut().errors.push("spawner dead".into()),
+                        }
                     }
                 }
             }
@@ -412,6 +423,15 @@ impl Real {
         // SAFETY: as above
         let rx = unsafe { self.exec.spawn(t) };
         self.shared.borrow_mut().receivers.push((id, rx));
+    }
+    /// The other entry point: `Executor::spawn_pinned` (no receiver).
+    fn spawn_pinned(&self, script: Vec<Act>) {
+        let t = new_task(&self.shared, script);
+        let fut: Pin<Box<dyn Future<Output = ()>>> = Box::pin(async move {
+            t.await;
+        });
+        // SAFETY: as above
+        unsafe { self.exec.spawn_pinned(fut) };
     }
 }
 
@@ -521,7 +541,11 @@ fn replay_history(system: &[Vec<Act>], hist: &[Drive]) -> Result<Model, String> 
                     m.signal(*k);
                 }
                 Drive::SpawnNew(s) => {
-                    real.spawn(CHILD_SCRIPTS[*s as usize].to_vec());
+                    if *s == 2 {
+                        real.spawn_pinned(CHILD_SCRIPTS[*s as usize].to_vec());
+                    } else {
+                        real.spawn(CHILD_SCRIPTS[*s as usize].to_vec());
+                    }
                     m.spawn(CHILD_SCRIPTS[*s as usize].to_vec());
                 }
             }
@@ -701,7 +725,7 @@ pub fn run(tier: Tier) -> i32 {
         }
     }
     let depth = tier.pick(5, 7);
-    let drives = [Drive::Step, Drive::Run, Drive::Signal(0), Drive::Signal(1), Drive::SpawnNew(1)];
+    let drives = [Drive::Step, Drive::Run, Drive::Signal(0), Drive::Signal(1), Drive::SpawnNew(1), Drive::SpawnNew(2)];
     let states = AtomicU64::new(0);
     let transitions = AtomicU64::new(0);
     let samples = Samples::new(6);
@@ -780,7 +804,7 @@ pub fn run(tier: Tier) -> i32 {
         "task_systems": systems.len(),
         "task_systems_in_which_some_task_blocked_on_a_channel": nontrivial_systems.load(Relaxed),
         "driver_depth": depth,
-        "explanation": "for every task system (2 tasks x scripts <=2 over 12 actions; 3 tasks over 7 actions; thorough: 2 tasks x scripts <=3) BFS over driver choices {step, run_until_stalled, signal channel 0/1 from outside, spawn} to the depth bound with dedup on the reference model's state; every history is replayed on a fresh real Executor with instrumented futures; compared after every driver op: poll log, wake_count vs model queue, return values, receivers (value exactly once, right after completion), no poll after Ready, no re-entrant poll, at stall every unfinished task is registered on an unsignalled channel, every future dropped exactly once at tear-down",
+        "explanation": "for every task system (2 tasks x scripts <=2 over 12 actions; 3 tasks over 7 actions; thorough: 2 tasks x scripts <=3) BFS over driver choices {step, run_until_stalled, signal channel 0/1 from outside, spawn through Executor::spawn, spawn through Executor::spawn_pinned} to the depth bound (tasks spawn children through Spawner::spawn and Spawner::spawn_pinned) with dedup on the reference model's state; every history is replayed on a fresh real Executor with instrumented futures; compared after every driver op: poll log, wake_count vs model queue, return values, receivers (value exactly once, right after completion), no poll after Ready, no re-entrant poll, at stall every unfinished task is registered on an unsignalled channel, every future dropped exactly once at tear-down",
     });
     ctx.finish(cov, &["FIFO reference model (queue + waiting lists) trusted", "a stale wake-up of a finished task is modelled as a queue entry that is popped without a poll (as implemented and consistent with the property)"])
 }
